@@ -1145,6 +1145,10 @@ func genC11(tier string, seed uint64, emit func(string)) {
 				}
 			}
 			emit(serveLine(cfg11, segs, script, floatTable(p.argvs...), fmt.Sprintf("complete %d", complete)))
+			if complete >= 2 && r.Chance(1, 3) {
+				// the client has gone away altogether: the write of the first (second) reply and of every later one fails
+				emit(serveLine(fmt.Sprintf("wfail=%d", 1+r.Intn(2)), [][]byte{b[:cut]}, script, floatTable(p.argvs...), fmt.Sprintf("complete %d", complete)))
+			}
 		}
 	}
 }
@@ -1156,12 +1160,27 @@ func oracleC11(c *serveCase, extra []string, res *serveResult) (string, []string
 	}
 	complete, _ := strconv.Atoi(extra[1])
 	tags = append(tags, "complete"+bucket(complete))
-	frames, ok := refFrames(res.written)
-	if !ok {
-		return "fail:reply stream is not a sequence of complete frames", tags
-	}
-	if len(frames) != complete {
-		return fmt.Sprintf("fail:%d replies although %d requests were received completely", len(frames), complete), tags
+	if c.wfail > 0 {
+		// the client is gone (its replies cannot be written): every request that was received completely is executed
+		// and answered all the same - the replies the loop attempted to write are counted
+		tags = append(tags, "client-gone")
+		attempted := 0
+		for _, e := range res.events {
+			if strings.HasPrefix(e, "wr:") {
+				attempted++
+			}
+		}
+		if attempted != complete {
+			return fmt.Sprintf("fail:%d of the %d requests that were received completely were executed and answered (the client had gone away: writes fail from the %d. on)", attempted, complete, c.wfail), tags
+		}
+	} else {
+		frames, ok := refFrames(res.written)
+		if !ok {
+			return "fail:reply stream is not a sequence of complete frames", tags
+		}
+		if len(frames) != complete {
+			return fmt.Sprintf("fail:%d replies although %d requests were received completely", len(frames), complete), tags
+		}
 	}
 	// handler calls can only come from the complete requests: replay the complete prefix alone and compare
 	if res.conns != 0 {
